@@ -18,6 +18,8 @@ import (
 // C09 — profile subject constraints are enforced, and only those.
 
 type c09Case struct {
+	// pipe: a second profile whose name differs from the first only in letter case ("P") and which has no subject rules; 1: its file is read after, 2: before the profile under test
+	Twin int `json:"twin,omitempty"`
 	// pipe: 1 the profile file, 2 the constrained entity's configuration file, 3 both are symbolic links to files kept in another directory (binary, native directory)
 	Linked int `json:"linked,omitempty"`
 	Kind       string   `json:"kind"` // "pure" | "pipe"
@@ -157,6 +159,11 @@ func c09Enumerate(tier string, yield func(any)) {
 					c4 := c
 					c4.Linked = l
 					yield(&c4)
+				}
+				for tw := 1; tw <= 2; tw++ {
+					c5 := c
+					c5.Twin = tw
+					yield(&c5)
 				}
 			}
 		}
@@ -454,6 +461,10 @@ func c09Pipe(x *engine.Ctx, c *c09Case) {
 		prof.SubjAttrs.Attributes = append(prof.SubjAttrs.Attributes, sa)
 	}
 	d.Profiles = append(d.Profiles, prof)
+	if c.Twin > 0 {
+		// profile names are names, not words: "P" is another profile than "p"
+		d.Profiles = append(d.Profiles, &refcfg.ProfileCfg{Path: []string{"", "zz-twin.yaml", "aa-twin.yaml"}[c.Twin], Name: "P"})
+	}
 	names := []string{"root", "mid", "leaf"}
 	for i, n := range names {
 		cfg := &refcfg.CertCfg{Path: n + ".yaml", Subject: "CN=" + n, KeyAlg: "P-224"}
@@ -525,7 +536,7 @@ func c09Pipe(x *engine.Ctx, c *c09Case) {
 		return
 	}
 	x.Transition(1)
-	x.Nontrivial(fmt.Sprintf("pipe %v %v %v %v %d %v %d %d %d", c.Attrs, c.Optional, c.AllowOther, c.Subject, c.Pos, c.Settled, c.Strat, c.Big, c.BigPos))
+	x.Nontrivial(fmt.Sprintf("pipe %v %v %v %v %d %v %d %d %d %d", c.Attrs, c.Optional, c.AllowOther, c.Subject, c.Pos, c.Settled, c.Strat, c.Big, c.BigPos, c.Twin))
 	if res.Panic != "" {
 		x.Violation("C09/panic/"+res.PanicSite, res.Panic)
 		return
@@ -554,7 +565,7 @@ func init() {
 	register(&engine.Check{
 		ID:          "C09",
 		Level:       "model_checking",
-		Rule:        "every profile = (attribute list of length 0..4 over {CN,O,C,1.2.3.4} x optional flag) x allowOther, plus the absent list (9363 profiles) x every subject of length 0..5 over {CN,O,C,1.2.3.4,L} (3905), and the same product over {1.2.3.4, 2.5.4.97, CN} with subjects over those plus L (3108 profiles x 1364 subjects): config.Validate on the real parsed RDN sequence vs. the reference predicate transcribed from the statement, one profile object shared by all its subjects as in a run and compared with its definition after every verdict, every verdict asked for twice on the same objects; plus 7 profiles x 9 subjects x 3 positions of the constrained entity in a root->mid->leaf chain through the whole file pipeline (rejected => planning error, empty write log), on a fresh directory, with a 60 / 80 / 300 KiB comment block in the profile file in front of its subject rules or at its top, on a native directory run by the binary where the profile file, the constrained entity's configuration file or both are symbolic links to files kept elsewhere, and on a directory first generated under a profile of the same name without subject rules and then run with default / -m only / all four reasons / -a; the same 7 x 9 through db.AddAndSign (a settled entity fetched, pointed at the profile and signed again with overwrite; a new alias under the profile, also with the profile registered through AddProfile and with a profile that has no subject rules): a rejected certificate gives an error and no artifact is written or changed; and three forbidden subjects with the read of the profile file breaking off after every possible number of bytes (the subject must not be certified, whatever arrived). Pairs are distinct by construction; states = profiles, transitions = Validate calls / runs",
+		Rule:        "every profile = (attribute list of length 0..4 over {CN,O,C,1.2.3.4} x optional flag) x allowOther, plus the absent list (9363 profiles) x every subject of length 0..5 over {CN,O,C,1.2.3.4,L} (3905), and the same product over {1.2.3.4, 2.5.4.97, CN} with subjects over those plus L (3108 profiles x 1364 subjects): config.Validate on the real parsed RDN sequence vs. the reference predicate transcribed from the statement, one profile object shared by all its subjects as in a run and compared with its definition after every verdict, every verdict asked for twice on the same objects; plus 7 profiles x 9 subjects x 3 positions of the constrained entity in a root->mid->leaf chain through the whole file pipeline (rejected => planning error, empty write log), on a fresh directory, with a 60 / 80 / 300 KiB comment block in the profile file in front of its subject rules or at its top, next to a second profile without subject rules whose name differs only in letter case (its file read before or after), on a native directory run by the binary where the profile file, the constrained entity's configuration file or both are symbolic links to files kept elsewhere, and on a directory first generated under a profile of the same name without subject rules and then run with default / -m only / all four reasons / -a; the same 7 x 9 through db.AddAndSign (a settled entity fetched, pointed at the profile and signed again with overwrite; a new alias under the profile, also with the profile registered through AddProfile and with a profile that has no subject rules): a rejected certificate gives an error and no artifact is written or changed; and three forbidden subjects with the read of the profile file breaking off after every possible number of bytes (the subject must not be certified, whatever arrived). Pairs are distinct by construction; states = profiles, transitions = Validate calls / runs",
 		Bound:       map[string]string{"profile length": "<=4", "subject length": "<=5", "alphabet": "3 short names + 1 custom OID + 1 foreign attribute"},
 		Assumptions: []string{"profile attributes that the schema allows but no table resolves (PC, DC, T, UID, MAIL) are outside the statement"},
 		Budget:      budgets(quickBudget, thoroughBudget),
